@@ -17,7 +17,7 @@ RULE = ("for every piece (bar plans with signature changes and empty bars x note
         "non-trivial = a partition with >=2 calls where a later chunk contains a note")
 ASSUMPTIONS = ["token lists and state dictionaries of different partitions need not be equal, only their detokenised meaning"]
 REQUIRED_FLAGS = ["signature_change", "empty_bar", "note_cut_by_bar_line", "side_track_shorter", "later_chunk_has_note",
-                  "all_partitions_explored", "running_values_off", "unfused_flags", "requantise_on", "requantise_off"]
+                  "all_partitions_explored", "two_track_piece_with_side_notes_explored", "running_values_off", "unfused_flags", "requantise_on", "requantise_off"]
 
 SIG = {"44": (4, 4), "34": (3, 4), "38": (3, 8), "68": (6, 8), "58": (5, 8)}   # a 36-tick note fills a 3/8 bar exactly
 FL = list(itertools.product((True, False), repeat=4))
@@ -41,7 +41,7 @@ def plan_list(tier):
 
 
 def context(tier, seed):
-    return {"tier": tier, "p": [60, 30, 100][seed % 3],
+    return {"tier": tier, "p": [60, 40, 96][seed % 3],     # p-12 .. p+1 stays inside the default pitch range
             "flagsets": [FL[0], FL[15], FL[5], FL[2]] if tier == "quick" else FL,
             "bounds": {"plans": len(plan_list(tier)), "max_bars": 4 if tier == "quick" else 6,
                        "flag_sets": 4 if tier == "quick" else 16, "partitions_per_piece": "all 2^(n-1)"}}
@@ -196,6 +196,8 @@ def check_case(case, ctx):
         n_states += len(seen)
         if not R.viols:
             R.flags.append("all_partitions_explored")
+            if nt >= 2 and side:
+                R.flags.append("two_track_piece_with_side_notes_explored")
     R.transitions = n_trans
     R.validated = n_trans
     R.flags.extend(["graph_state"] * n_states)
